@@ -98,3 +98,21 @@ Proof. exact fmt_preserves_ast. Qed.
 Theorem formatting_is_a_fixed_point : forall ind (p p' : Ast.prog),
     frag_prog p = true -> prog_ok ind p = true -> parse_src (pp_stmts ind p) = Parsed p' -> pp_stmts ind p' = pp_stmts ind p.
 Proof. exact fmt_fixed_point. Qed.
+
+(* ---- text level for the WHOLE language (parse/Parse_Lex.v): printing then lexing gives the program's tokens for every construct,
+   hence formatting preserves the program and is a fixed point.  [lex_ok_prog] is the executable text-level side condition (names
+   are lexable words, floats are finite); [pnorm] keeps a format template as the raw text the parser keeps, and [pp_stmts_raw] is
+   the printer writing such a raw template verbatim (as AstPrinter writes FormatDef.template). ---- *)
+From Ucg Require Import parse.Parse_Lex.
+
+Theorem printed_text_lexes_to_the_programs_tokens : forall ind (p : Ast.prog),
+    lex_ok_prog p = true -> prog_ok ind p = true -> lex_of_print ind p.
+Proof. exact lex_of_print_ok. Qed.
+
+Theorem formatting_preserves_every_program : forall ind (p : Ast.prog),
+    lex_ok_prog p = true -> prog_ok ind p = true -> parse_src (pp_stmts ind p) = Parsed (pnorm ind p).
+Proof. exact fmt_preserves_ast_all. Qed.
+
+Theorem formatting_is_a_fixed_point_for_every_program : forall ind (p p' : Ast.prog),
+    lex_ok_prog p = true -> prog_ok ind p = true -> parse_src (pp_stmts ind p) = Parsed p' -> pp_stmts_raw ind p' = pp_stmts ind p.
+Proof. exact fmt_fixed_point_all. Qed.
